@@ -187,11 +187,9 @@ def transform (o : Opts) (m : FMsa) : Option FMsa := do
   let m := if o.dewuss then mapSS EaselModel.Msa.wuss2kh m else m
   if o.fullwuss then fullWuss m else some m
 
-/-- `esl_msafile_Write` as the tools reach it.  KNOWN DEFECT of the tree (round 4, patch proposed: C13-clustal-write-zero-columns): the
-    text-mode Clustal writer allocates `alen` cells for its consensus line, so an alignment with ZERO columns (everything masked /
-    degapped away) raises "zero malloc disallowed" and the tool aborts; the reference has no prediction there -/
-def msafileWriteTool (outfmt : String) (abc : Option Abc) (m : FMsa) : Option Bytes :=
-  if m.alen == 0 && !m.digital && (outfmt == "clustal" || outfmt == "clustallike") then none else msafileWrite outfmt abc m
+/-- `esl_msafile_Write` as the tools reach it (until fc170bb the text-mode Clustal writer aborted on an alignment with ZERO columns —
+    everything masked / degapped away — and the reference had no prediction there; since the repair it writes the empty alignment) -/
+def msafileWriteTool (outfmt : String) (abc : Option Abc) (m : FMsa) : Option Bytes := msafileWrite outfmt abc m
 
 /-- the write call: `--namelen` with a PHYLIP output format goes to `esl_msafile_phylip_Write` with THE REQUESTED format -/
 def writeOne (o : Opts) (outfmt : String) (m : FMsa) : Option Bytes :=
